@@ -24,7 +24,7 @@ var profIterFault = &Profile{
 // FreeCheck adds the hook invariants (no live node freed, zeroed or carrying a
 // stale reclaim mark) after every op: a failed call that leaves marks behind is
 // then seen at once instead of only when the node is recycled much later.
-var faultOpts = RunOpts{Prop: "C07", FreeCheck: true}
+var faultOpts = RunOpts{Prop: "C07", FreeCheck: true, RevertPoints: true}
 
 // faultOptsFor returns the oracles active during the fault enumeration of a property.
 func faultOptsFor(prop string) RunOpts {
@@ -34,7 +34,7 @@ func faultOptsFor(prop string) RunOpts {
 	case "C17":
 		return RunOpts{Prop: "C17"}
 	case "C09":
-		return RunOpts{Prop: "C09", Monitor: true}
+		return RunOpts{Prop: "C09", Monitor: true, RevertPoints: true}
 	}
 	return faultOpts
 }
